@@ -31,8 +31,8 @@ CallsOk(ev) ==
   /\ Len(ev.offered) = Len(ev.consumed)
   /\ \A i \in DOMAIN ev.consumed : ev.consumed[i] >= 0 /\ ev.consumed[i] <= ev.offered[i]
   /\ ev.fmt \in ByteFormats => ev.tot <= ev.n
-  \* a successful session has consumed the whole input
-  /\ (ev.fmt \in ByteFormats /\ ev.out = "ok") => ev.tot = ev.n
+  \* a successful session has consumed the whole input (CSV: with_bounds stops before the end)
+  /\ (ev.fmt \in ByteFormats \ {"csv"} /\ ev.out = "ok") => ev.tot = ev.n
 
 NonEmptyBatches(ev) == ev.bs = 0 \/ \A i \in DOMAIN ev.batches : Len(ev.batches[i]) >= 1
 
@@ -43,7 +43,7 @@ CutInBody(ev) == \E j \in DOMAIN ev.cuts : InBody(ev.cuts[j], ref.bodies)
 KF(ev) ==
   IF /\ Soe(ev.fmt) /\ CutInBody(ev) /\ ev.out = "err"
      /\ ev.cls \in {"decode:ParseError", "flush:ArrowError.InvalidArgumentError"}
-  THEN "C14-avro-soe-body-straddles-chunk" ELSE ""
+  THEN "C14-avro-soe-body-cut" ELSE ""
 
 (* ---- a session against the base of its group ---- *)
 Same(ev) ==
@@ -78,7 +78,7 @@ RefAgrees(ev) ==
     [] OTHER -> FALSE
 
 Init == /\ l = 1
-        /\ ref = [id |-> -1, bs |-> 0, n |-> 0, has_ref |-> FALSE, pinned |-> "", out |-> "none", rows |-> <<>>,
+        /\ ref = [id |-> 1000000, bs |-> 0, n |-> 0, has_ref |-> FALSE, pinned |-> "", out |-> "none", rows |-> <<>>,
                   schema |-> "", bodies |-> <<>>, fmt |-> ""]
         /\ base = [set |-> FALSE, out |-> "", cls |-> "", rows |-> <<>>, schema |-> ""]
 
@@ -92,17 +92,16 @@ Session(ev) ==
   /\ Judge(ev.id = ref.id /\ ev.bs = ref.bs /\ ev.n = ref.n /\ ev.fmt = ref.fmt, l, "session outside its group")
   /\ Judge(ValidCuts(ev.cuts, ev.n), l, "cuts are not a chunking of the input")
   /\ Judge(ev.out \in {"ok", "err"} /\ (ev.out = "ok") = (ev.cls = ""), l, "malformed outcome")
-  /\ Judge(BatchBound(ev.batches, ev.bs), l, <<"batch larger than batch_size", ev.fmt, ev.bs>>)
+  /\ Judge(BatchBound(ev.batches, ev.bs), l, <<"batch > batch_size", ev.fmt>>)
   /\ Judge(NonEmptyBatches(ev), l, <<"empty batch emitted", ev.fmt>>)
-  /\ Judge(CallsOk(ev), l, <<"decode calls: consumed/offered", ev.fmt, ev.tot, ev.n>>)
+  /\ Judge(CallsOk(ev), l, <<"consumed/offered", ev.fmt>>)
   /\ IF ~base.set
      THEN /\ base' = [set |-> TRUE, out |-> ev.out, cls |-> ev.cls, rows |-> Rows(ev), schema |-> ev.schema]
           /\ Judge(ev.cuts = <<>> /\ ev.mode = "canon", l, "a group must start with the whole input")
           /\ Judge(ref.has_ref => RefAgrees(ev), l,
-                   <<"differs from the one-shot reader", ev.fmt, ref.pinned, ref.out, ev.out, ev.cls, Len(ref.rows), Len(Rows(ev))>>)
+                   <<"differs from one-shot reader", ev.fmt>>)
      ELSE /\ UNCHANGED base
-          /\ JudgeKF(Same(ev), l, <<"depends on the chunking", ev.fmt, ev.mode, ev.bs, base.out, base.cls, ev.out, ev.cls,
-                                    Len(base.rows), Len(Rows(ev))>>, KF(ev))
+          /\ JudgeKF(Same(ev), l, "chunk-dependent", KF(ev))
   /\ UNCHANGED ref
 
 Next == /\ l <= Len(Rec)
